@@ -58,6 +58,7 @@ ensures
 proof { ax_obeys(); ax_rv_lits(); lemma_gd_general(it, discount); }""",
                  ),
             dict(path="fn discount_average_strat", vis="pub ", obligation="C08.V.discount_average_strat", n_loops=2,
+                 f64_fields=["strat", "pos_regret", "neg_regret", "no_positive"],
                  contract="""requires
     it >= 1,
 ensures
